@@ -17,14 +17,18 @@ Statement, clause by clause:
                                                   `deleted_file_invalidates`, `deleted_member_invalidates`
  * "the new result reflects the current external state"
                                                 → `reexec_reflects_state`, `returned_is_current`,
-                                                  `run_again_replays`, `history_returned_is_current`
+                                                  `full_cache_is_returned`, `run_again_replays`,
+                                                  `history_returned_is_current`, and downstream of the task:
+                                                  `chain_answer_current`, `cinv_runChain`, `chain_consumer_runs_iff_new`
+ `shallow : Bool` is `check_valid="shallow"` (newest CallNode instead of the Evaluation row); every theorem holds for both
+ modes unless it says `false`; `shallow_rerun_remark` records why `run_again_replays` is stated for the default mode.
 -/
 import RedunModel.Lemmas.FileSys
 import RedunModel.Model.ExtCache
 namespace RedunModel.C04
 open RedunModel.FileSys RedunModel.ExtCache
 
-variable {ε : Type} (U : List Path) (body : Body ε)
+variable {ε : Type} (U : List Path) (shallow : Bool) (body : Body ε)
 
 theorem execute_not_replay (s : St) : (execute U body s).2.isReplay = false := by
   unfold execute; split <;> rfl
@@ -35,8 +39,8 @@ theorem record_allValid (fs : FS) (outs : List (Option Val)) : allValid U fs (re
   cases o <;> simp [leafValid, validRec]
 
 /-- A cached result is replayed iff `is_valid_nested` holds for it in the current filesystem. -/
-theorem replay_iff_valid (s : St) (ls : List Leaf) (hc : s.cache = some ls) :
-    (run U body s).2.isReplay = true ↔ allValid U s.fs ls = true := by
+theorem replay_iff_valid (s : St) (ls : List Leaf) (hc : cached shallow s = some ls) :
+    (run U shallow body s).2.isReplay = true ↔ allValid U s.fs ls = true := by
   unfold run
   simp only [hc]
   split
@@ -57,8 +61,8 @@ theorem valid_means_hashes_equal (fs : FS) (ls : List Leaf) :
     | plain => rfl
     | ext v h => simpa [leafValid, validRec] using hall v h hm
 
-theorem replay_only_if_valid (s : St) (ls : List Leaf) (h : (run U body s).2 = .replay ls) :
-    s.cache = some ls ∧ allValid U s.fs ls = true := by
+theorem replay_only_if_valid (s : St) (ls : List Leaf) (h : (run U shallow body s).2 = .replay ls) :
+    cached shallow s = some ls ∧ allValid U s.fs ls = true := by
   unfold run at h
   split at h
   · rename_i ls0 hc
@@ -69,7 +73,7 @@ theorem replay_only_if_valid (s : St) (ls : List Leaf) (h : (run U body s).2 = .
     · have := execute_not_replay U body s; rw [h] at this; cases this
   · have := execute_not_replay U body s; rw [h] at this; cases this
 
-theorem replay_changes_nothing (s : St) (h : (run U body s).2.isReplay = true) : (run U body s).1 = s := by
+theorem replay_changes_nothing (s : St) (h : (run U shallow body s).2.isReplay = true) : (run U shallow body s).1 = s := by
   unfold run at h ⊢
   split at h
   · split at h
@@ -79,13 +83,14 @@ theorem replay_changes_nothing (s : St) (h : (run U body s).2.isReplay = true) :
 
 /-- A recorded result with an invalid leaf: the task body runs exactly once (the counter goes up by one), no
 error arises from the validity check, and the entry is overwritten by the new result. -/
-theorem invalid_reexecutes_once (s : St) (ls : List Leaf) (hc : s.cache = some ls) (hv : allValid U s.fs ls = false)
+theorem invalid_reexecutes_once (s : St) (ls : List Leaf) (hc : cached shallow s = some ls) (hv : allValid U s.fs ls = false)
     (fs' : FS) (outs : List (Option Val)) (hb : body s.fs = .ok (fs', outs)) :
-    run U body s = ({ fs := fs', cache := some (record U fs' outs), execs := s.execs + 1 }, .exec (record U fs' outs)) := by
+    (run U shallow body s).2 = .exec (record U fs' outs) ∧ (run U shallow body s).1.execs = s.execs + 1 ∧
+    (run U shallow body s).1.fs = fs' ∧ (run U shallow body s).1.cache = some (record U fs' outs) := by
   simp [run, hc, hv, execute, hb]
 
 /-- `run` fails only if the task body itself fails: checking validity never raises, on any filesystem state. -/
-theorem no_raise (s : St) (e : ε) (h : (run U body s).2 = .failed e) : body s.fs = .error e := by
+theorem no_raise (s : St) (e : ε) (h : (run U shallow body s).2 = .failed e) : body s.fs = .error e := by
   have hex : ∀ e, (execute U body s).2 = .failed e → body s.fs = .error e := by
     intro e h
     unfold execute at h
@@ -101,8 +106,8 @@ theorem no_raise (s : St) (e : ε) (h : (run U body s).2 = .failed e) : body s.f
 
 /-- After a (re-)execution the returned values carry the hashes of the filesystem state the task left behind,
 and that result is what the cache now holds. -/
-theorem reexec_reflects_state (s : St) (ls : List Leaf) (h : (run U body s).2 = .exec ls) :
-    (∀ v hh, Leaf.ext v hh ∈ ls → hh = calcHash U (run U body s).1.fs v) ∧ (run U body s).1.cache = some ls := by
+theorem reexec_reflects_state (s : St) (ls : List Leaf) (h : (run U shallow body s).2 = .exec ls) :
+    (∀ v hh, Leaf.ext v hh ∈ ls → hh = calcHash U (run U shallow body s).1.fs v) ∧ (run U shallow body s).1.cache = some ls := by
   have hex : ∀ ls, (execute U body s).2 = .exec ls →
       (∀ v hh, Leaf.ext v hh ∈ ls → hh = calcHash U (execute U body s).1.fs v) ∧ (execute U body s).1.cache = some ls := by
     intro ls h
@@ -125,19 +130,17 @@ theorem reexec_reflects_state (s : St) (ls : List Leaf) (h : (run U body s).2 = 
     · rename_i hv; simp only [hv]; exact hex ls h
   · exact hex ls h
 
-/-- Whatever `run` hands back — replayed or freshly computed — is valid in the filesystem it leaves behind, and is
-the cache entry. -/
-theorem returned_is_current (s : St) (ls : List Leaf) (h : (run U body s).2.leaves = some ls) :
-    allValid U (run U body s).1.fs ls = true ∧ (run U body s).1.cache = some ls := by
-  have hex : (execute U body s).2.leaves = some ls →
-      allValid U (execute U body s).1.fs ls = true ∧ (execute U body s).1.cache = some ls := by
+/-- Whatever `run` hands back — replayed or freshly computed — is valid in the filesystem it leaves behind. -/
+theorem returned_is_current (s : St) (ls : List Leaf) (h : (run U shallow body s).2.leaves = some ls) :
+    allValid U (run U shallow body s).1.fs ls = true := by
+  have hex : (execute U body s).2.leaves = some ls → allValid U (execute U body s).1.fs ls = true := by
     intro h
     unfold execute at h ⊢
     split at h
     · cases h
     · simp only [Outcome.leaves, Option.some.injEq] at h
       subst h
-      exact ⟨record_allValid U _ _, rfl⟩
+      exact record_allValid U _ _
   unfold run at h ⊢
   split at h
   · rename_i ls0 hc
@@ -146,26 +149,50 @@ theorem returned_is_current (s : St) (ls : List Leaf) (h : (run U body s).2.leav
       simp only [Outcome.leaves, Option.some.injEq] at h
       subst h
       rw [if_pos hv]
-      exact ⟨hv, hc⟩
+      exact hv
     · rename_i hv; rw [if_neg hv]; exact hex h
   · exact hex h
 
-/-- Running again straight away (no external change in between) replays the same result, whatever the body. -/
-theorem run_again_replays (body' : Body ε) (s : St) (ls : List Leaf) (h : (run U body s).2.leaves = some ls) :
-    run U body' (run U body s).1 = ((run U body s).1, .replay ls) := by
-  obtain ⟨hv, hc⟩ := returned_is_current U body s ls h
+/-- Default (full) validity checking: what `run` hands back is what the Evaluation row now holds … -/
+theorem full_cache_is_returned (s : St) (ls : List Leaf) (h : (run U false body s).2.leaves = some ls) :
+    (run U false body s).1.cache = some ls := by
+  have hex : (execute U body s).2.leaves = some ls → (execute U body s).1.cache = some ls := by
+    intro h
+    unfold execute at h ⊢
+    split at h
+    · cases h
+    · simp only [Outcome.leaves, Option.some.injEq] at h
+      subst h
+      rfl
+  unfold run at h ⊢
+  split at h
+  · rename_i ls0 hc
+    split at h
+    · rename_i hv
+      simp only [Outcome.leaves, Option.some.injEq] at h
+      subst h
+      rw [if_pos hv]
+      simpa [cached] using hc
+    · rename_i hv; rw [if_neg hv]; exact hex h
+  · exact hex h
+
+/-- … so running again straight away (no external change in between) replays the same result, whatever the body. -/
+theorem run_again_replays (body' : Body ε) (s : St) (ls : List Leaf) (h : (run U false body s).2.leaves = some ls) :
+    run U false body' (run U false body s).1 = ((run U false body s).1, .replay ls) := by
+  have hv := returned_is_current U false body s ls h
+  have hc := full_cache_is_returned U body s ls h
   clear h
-  generalize run U body s = r at hv hc ⊢
+  generalize run U false body s = r at hv hc ⊢
   obtain ⟨s1, o1⟩ := r
   simp only at hv hc
-  simp [run, hc, hv]
+  simp [run, cached, hc, hv]
 
 /-- Over all histories of external filesystem mutations and runs (of any bodies), starting anywhere: the result
 of a run is valid in the state it leaves behind. -/
 theorem history_returned_is_current (s0 : St) (ops : List (HOp ε)) (ls : List Leaf)
-    (h : (run U body (hrun U s0 ops)).2.leaves = some ls) :
-    allValid U (run U body (hrun U s0 ops)).1.fs ls = true :=
-  (returned_is_current U body _ ls h).1
+    (h : (run U shallow body (hrun U s0 ops)).2.leaves = some ls) :
+    allValid U (run U shallow body (hrun U s0 ops)).1.fs ls = true :=
+  returned_is_current U shallow body _ ls h
 
 /-- A recorded File / ContentFile whose file has since been deleted is invalid (so the task re-executes: see
 `invalid_reexecutes_once`), for every recorded state in which the file existed. -/
@@ -199,21 +226,146 @@ theorem immutable_never_invalidates (fs0 fs : FS) (v : Val)
   rcases hv with ⟨p, rfl⟩ | ⟨d, r, rfl⟩ | ⟨p, rfl⟩ <;> simp [leafValid, validRec, alwaysValid, calcHash]
 
 
+/-! ### downstream: a consumer task called on the result (`consume(make())`) -/
+
+/-- what the consumer's observation is according to the recorded hash alone -/
+def summHF : HF → Int
+  | .stat _ sz _ => sz
+  | .content _ none => -1
+  | .content _ (some b) => b.length
+def summH : H → Int
+  | .f h => summHF h
+  | .coll _ _ ms => ms.length
+  | _ => 0
+def summLeaf : Leaf → Int
+  | .ext (.file .imm _) _ => 0
+  | .ext (.fset .imm _ _) _ => 0
+  | .ext (.dir .imm _) _ => 0
+  | .ext (.staging ..) _ => 0
+  | .ext _ h => summH h
+  | .plain => 0
+
+/-- a valid leaf's observation is determined by its recorded hash -/
+theorem observe_of_valid (fs : FS) (l : Leaf) (hv : leafValid U fs l = true) : observeLeaf U fs l = summLeaf l := by
+  cases l with
+  | plain => rfl
+  | ext v h =>
+    simp only [leafValid, validRec, Bool.or_eq_true, beq_iff_eq] at hv
+    cases v with
+    | file fam p =>
+      cases fam <;> simp only [alwaysValid, Bool.false_eq_true, false_or] at hv <;> try subst hv
+      · simp only [observeLeaf, observe, summLeaf, summH, calcHash, statH]
+        cases fs p <;> simp [summHF]
+      · rfl
+      · simp only [observeLeaf, observe, summLeaf, summH, calcHash, contentH]
+        cases fs p <;> simp [summHF]
+    | fset fam d r =>
+      cases fam <;> simp only [alwaysValid, Bool.false_eq_true, false_or] at hv <;> try subst hv
+      · simp [observeLeaf, observe, summLeaf, summH, calcHash]
+      · rfl
+      · simp [observeLeaf, observe, summLeaf, summH, calcHash]
+    | dir fam p =>
+      cases fam <;> simp only [alwaysValid, Bool.false_eq_true, false_or] at hv <;> try subst hv
+      · simp [observeLeaf, observe, summLeaf, summH, calcHash]
+      · rfl
+      · simp [observeLeaf, observe, summLeaf, summH, calcHash]
+    | staging d fam l r => rfl
+
+theorem observe_map_of_valid (fs : FS) (ls : List Leaf) (hv : allValid U fs ls = true) :
+    ls.map (observeLeaf U fs) = ls.map summLeaf := by
+  apply List.map_congr_left
+  intro l hl
+  exact observe_of_valid U fs l (by simpa [allValid, List.all_eq_true] using (List.all_eq_true.1 hv) l hl)
+
+/-- invariant of the consumer's cache: every stored answer is the one determined by its key -/
+def CInv (c : CSt) : Prop := ∀ ls sm, lookupL ls c.ccache = some sm → sm = ls.map summLeaf
+
+theorem lookupL_cons_self (k : List Leaf) (b : List Int) (t) : lookupL k ((k, b) :: t) = some b := by simp [lookupL]
+
+theorem cinv_runChain (c : CSt) (h : CInv c) : CInv (runChain U shallow body c).1 := by
+  unfold runChain
+  simp only
+  split
+  · exact h
+  · rename_i ls hls
+    split
+    · exact h
+    · intro ls' sm' hl
+      simp only [lookupL] at hl
+      split at hl
+      · rename_i heq
+        subst heq
+        cases hl
+        exact observe_map_of_valid U _ _ (returned_is_current U shallow body c.base _ hls)
+      · exact h ls' sm' hl
+
+theorem runChain_upstream (c : CSt) :
+    (runChain U shallow body c).2.1 = (run U shallow body c.base).2 ∧ (runChain U shallow body c).1.base = (run U shallow body c.base).1 := by
+  unfold runChain
+  simp only
+  split
+  · exact ⟨rfl, rfl⟩
+  · split <;> exact ⟨rfl, rfl⟩
+
+/-- **The downstream answer is current.** Whether the consumer ran or was replayed from its own cache, the answer
+handed back equals what the consumer would compute now from the filesystem the run leaves behind. -/
+theorem chain_answer_current (c : CSt) (h : CInv c) (ran : Bool) (sm : List Int) (ls : List Leaf)
+    (hl : (runChain U shallow body c).2.1.leaves = some ls) (hr : (runChain U shallow body c).2.2 = some (ran, sm)) :
+    sm = ls.map (observeLeaf U (runChain U shallow body c).1.base.fs) := by
+  rw [(runChain_upstream U shallow body c).1] at hl
+  rw [(runChain_upstream U shallow body c).2]
+  have hv := returned_is_current U shallow body c.base _ hl
+  unfold runChain at hr
+  simp only [hl] at hr
+  split at hr
+  · rename_i sm0 hlk
+    simp only [Option.some.injEq, Prod.mk.injEq] at hr
+    obtain ⟨_, rfl⟩ := hr
+    rw [h _ _ hlk, observe_map_of_valid U _ _ hv]
+  · simp only [Option.some.injEq, Prod.mk.injEq] at hr
+    obtain ⟨_, rfl⟩ := hr
+    rfl
+
+/-- the consumer re-executes exactly when it has not yet seen this argument (these recorded hashes) -/
+theorem chain_consumer_runs_iff_new (c : CSt) (ls : List Leaf) (hl : (run U shallow body c.base).2.leaves = some ls) :
+    (∃ sm, (runChain U shallow body c).2.2 = some (true, sm)) ↔ lookupL ls c.ccache = none := by
+  unfold runChain
+  simp only [hl]
+  cases hk : lookupL ls c.ccache <;> simp
+
+
 /-! ### non-vacuity: the F3 history on the model (content-hashed output deleted between two runs) -/
 section Examples
 def exU : List Path := [["f"], ["d", "a"]]
 def exBody (t : Int) : Body Empty := writerBody [(["f"], [97, 98])] [some (.file .content ["f"]), none, some (.dir .plain ["d"])] t
-def exS1 : St := (run exU (exBody 5) ⟨FS.empty, none, 0⟩).1
+def exS1 : St := (run exU false (exBody 5) ⟨FS.empty, none, [], 0⟩).1
 
 example : exS1.execs = 1 := by decide
-example : (run exU (exBody 6) exS1).2.isReplay = true := by decide
+example : (run exU false (exBody 6) exS1).2.isReplay = true := by decide
 /-- delete the output: the next run re-executes (no failure), the file is back, and a further run replays -/
-def exS2 : St := (run exU (exBody 7) { exS1 with fs := exS1.fs.remove ["f"] }).1
+def exS2 : St := (run exU false (exBody 7) { exS1 with fs := exS1.fs.remove ["f"] }).1
 example : allValid exU (exS1.fs.remove ["f"]) (exS1.cache.getD []) = false := by decide
 example : exS2.execs = 2 ∧ (exS2.fs ["f"]).isSome = true := by decide
-example : (run exU (exBody 8) exS2).2.isReplay = true := by decide
+example : (run exU false (exBody 8) exS2).2.isReplay = true := by decide
 /-- a new member below the returned Dir invalidates, too -/
-example : (run exU (exBody 8) { exS2 with fs := exS2.fs.write ["d", "a"] [] 3 }).2.isReplay = false := by decide
+example : (run exU false (exBody 8) { exS2 with fs := exS2.fs.write ["d", "a"] [] 3 }).2.isReplay = false := by decide
+
+/-- Remark (not demanded by the property, which only forbids replaying an *invalid* result): with
+`check_valid="shallow"` the lookup takes the CallNode created last, and re-creating an *older* result refreshes no
+timestamp — after  run; add a member; run; remove it; run  every further run re-executes although nothing changes.
+`run_again_replays` is therefore stated for the default mode only. -/
+def exDirBody : Body Empty := writerBody [] [some (.dir .plain ["d"])] 0
+def exT0 : St := (run exU true exDirBody ⟨FS.empty, none, [], 0⟩).1
+def exT1 : St := (run exU true exDirBody { exT0 with fs := exT0.fs.write ["d", "a"] [] 3 }).1
+def exT2 : St := (run exU true exDirBody { exT1 with fs := exT1.fs.remove ["d", "a"] }).1
+theorem shallow_rerun_remark :
+    exT2.execs = 3 ∧ (run exU true exDirBody exT2).2.isReplay = false ∧
+    (run exU true exDirBody (run exU true exDirBody exT2).1).1.execs = 5 := by decide
+/-- chain: the consumer's answer follows the re-executed upstream result -/
+def exC1 : CSt := (runChain exU false (exBody 5) ⟨⟨FS.empty, none, [], 0⟩, [], 0⟩).1
+example : (runChain exU false (exBody 6) exC1).2.2 = some (false, [2, 0, 0]) := by decide
+example : (runChain exU false (exBody 6) { exC1 with base := { exC1.base with fs := exC1.base.fs.write ["d", "a"] [] 3 } }).2.2
+    = some (true, [2, 0, 1]) := by decide
 end Examples
 
 end RedunModel.C04
